@@ -1058,11 +1058,14 @@ func runConc(r *rec, g *rng, tier, what, out string, extra map[string]interface{
 			}
 		}
 		// Close with an error / an overflow pending and nobody reading Errors: everything is released all the same
-		for _, p := range []string{"error", "overflow"} {
+		// (with a consumer that reads nothing the reader is parked on the first event: the table still holds
+		// the watch of the file that was renamed and deleted — a mark the kernel has dropped already)
+		for _, pc := range [][2]string{{"error", "onlyEvents"}, {"overflow", "onlyEvents"}, {"error", "neither"}, {"error", "onlyErrors"}, {"events", "neither"}} {
+			p, cs := pc[0], pc[1]
 			fd0, g0 := inotifyFds(), fsnotifyGoroutines()
-			c.scenarioClose(0, "onlyEvents", p)
+			c.scenarioClose(0, cs, p)
 			if !settle(func() bool { return inotifyFds() <= fd0 && fsnotifyGoroutines() <= g0 }) {
-				c.report("C13", "C13:leak-after-close-with-pending-"+p, fmt.Sprintf("Close with a pending %s: inotify descriptors %d -> %d, reader goroutines %d -> %d", p, fd0, inotifyFds(), g0, fsnotifyGoroutines()), map[string]interface{}{})
+				c.report("C13", "C13:leak-after-close-with-pending-"+p, fmt.Sprintf("Close with a pending %s (consumer %s): inotify descriptors %d -> %d, reader goroutines %d -> %d", p, cs, fd0, inotifyFds(), g0, fsnotifyGoroutines()), map[string]interface{}{})
 			}
 		}
 	}
